@@ -895,6 +895,30 @@ def check_C17(ctx):
             shown.add("twice" + str(len(shown)))
             ctx.violation("[C17] one reporter used for two runs (the second: one passing test): " + "; ".join(errs), "# run under every reporter: harness/scenario_run <file> <reporter> <outdir>\n" + sc.text(),
                           found_input=True, facts={"two_runs": True})
+    # failed checks whose message is one long line (a quoted document, a long string): every reporter still counts each of them, and what
+    # the same test fails afterwards, under the test that made them
+    longs = []
+    for L in (200, 990, 1100, 2500):
+        doc = ('{"k": "<a&b>", ' * (L // 16 + 1))[:L]
+        longs.append(Scen(S("top", items=[T("a", body=["P"]), T("differs", body=["X" + doc.encode().hex(), "F"]), T("b", body=["F"])])))
+    gobs = bench.run_many([(sc.text(), r) for sc in longs for r in ("text", "xml", "libxml", "cute")])
+    for i, sc in enumerate(longs):
+        row = dict(zip(("text", "xml", "libxml", "cute"), gobs[4 * i: 4 * i + 4]))
+        tper = {k.split("/")[-1]: v[0] for k, v in observed_per_test(row["text"], "text", sc).items()}
+        errs = []
+        for r in ("xml", "libxml"):
+            cases, perr = xml_testcases(row[r])
+            xper = {c[1]: c[2] for c in cases}
+            if perr: errs.append(f"the {r} report is not well-formed ({perr[0][:80]})")
+            elif any(xper.get(n, 0) != tper.get(n, 0) for n in ("a", "differs", "b")):
+                errs.append(f"{r} shows failures per test {xper}, text {tper}")
+        ct = observed_totals(row["cute"], "cute"); tt = observed_totals(row["text"], "text")
+        if ct is None or tt is None or ct[1] != tt[1]: errs.append(f"CUTE counts {ct and ct[1]} failures, text {tt and tt[1]}")
+        if errs and len(shown) < 12:
+            shown.add("long" + str(i))
+            ctx.violation(f"[C17] a failed check with a one-line message of {len(bytes.fromhex(sc.root.items[1].body[0][1:]))} characters: " + "; ".join(errs),
+                          "# run under every reporter: harness/scenario_run <file> <reporter> <outdir>\n" + sc.text()[:6000], found_input=True, facts={"long_message": True})
+    ctx.coverage["long_message_runs"] = len(gobs)
     ctx.coverage["two_runs_with_one_reporter"] = len(tobs)
     ctx.coverage["correspondence"] = {"cases": len(obs) + len(lobs), "disagreements": ndis, "oracle_evaluations": len(scens) + len(late)}
     ctx.oblige("correspondence C17: model and implementation agree under every reporter", ndis == 0, f"{ndis} disagreements")
@@ -956,6 +980,7 @@ def fw_expected(res):
 
 def check_C04(ctx):
     ok, out, failed = lean_check(ctx)
+    reader_obligations(ctx)      # (every test's records are read up to its own end marker: nothing of one test is left for the next)
     platform_obligations(ctx, ["reporting_process", "test_process"])      # the order Model/Signals.lean assumes: fork, then ignore - wait - allow
     rng = random.Random(ctx.seed * 1000 + 4)
     bench = Bench(ctx)
@@ -1042,6 +1067,40 @@ def check_C04(ctx):
                     ctx.violation(f"[C04] test {name} has (failure lines, exception lines)={tuple(v)} in one registration order and {refl[name][0]} in another",
                                   "# two runs of the same tests in different orders / subsets (text reporter, forking mode)\n# run A:\n" + refl[name][1] + "\n# run B:\n" + s.text(), found_input=True, facts={"mode": "fork", "lines": True})
                 refl.setdefault(name, (tuple(v), s.text()))
+    # ... also after a test whose process was killed while it was exiting (after its completion notice), and after a test that reported an
+    # exception of its own and then completed (what cgreen sends for a C++ test body that throws): in every order the lines that name each
+    # test are the same (judged among the orders; the per-test model has neither)
+    import itertools as _it
+    special = []
+    for kind in ("late", "thrown"):
+        base = [T("v", body=["P"] if kind == "late" else ["P", "XN", "P"]), T("plain_failure", body=["P", "F"]), T("quits", body=["E"]), T("ok", body=["P"])]
+        for order in list(_it.permutations(base))[:: 2]:
+            for shape in (0, 1):
+                items = [t.copy() for t in order]
+                root = S("top", items=items) if shape == 0 else S("top", items=[S("inner", items=items[:2])] + items[2:])
+                special.append((kind, Scen(root, mode="fork", kill=("at_exit", 1, "15", "v") if kind == "late" else None)))
+    sobs = bench.run_many([(sc.text(), "text") for _, sc in special])
+    sref = {}
+    for (kind, sc), o in zip(special, sobs):
+        if status_of(o) not in ("0", "1"):
+            continue
+        known = {"/".join(p_) for p_, _ in sc.root.tests()}
+        per = observed_per_test(o, "text", sc)
+        stray = [p_ for p_, v in per.items() if p_ not in known and any(v)]
+        if stray and shown < 10:
+            shown += 1
+            ctx.violation(f"[C04] after a test that {'was killed while exiting' if kind == 'late' else 'reported an exception and completed'}: failure or exception lines name `{stray[0]}`, which is no test of the run",
+                          "# reporter: text   harness/scenario_run <file> text <outdir>\n" + sc.text(), found_input=True, facts={"mode": "fork", "lines": True, "after": kind})
+        for path_, v in per.items():
+            name = path_.split("/")[-1]
+            if path_ not in known: continue
+            key = (kind, name)
+            if key in sref and sref[key][0] != tuple(v) and shown < 10:
+                shown += 1
+                ctx.violation(f"[C04] test {name} has (failure lines, exception lines)={tuple(v)} in one registration order and {sref[key][0]} in another (one of the tests {'is killed while exiting' if kind == 'late' else 'reports an exception and completes'})",
+                              "# two runs of the same tests in different orders (text reporter, forking mode)\n# run A:\n" + sref[key][1] + "\n# run B:\n" + sc.text(), found_input=True, facts={"mode": "fork", "lines": True, "after": kind})
+            sref.setdefault(key, (tuple(v), sc.text()))
+    ctx.coverage["orders_after_late_death_or_thrown_exception"] = len(special)
     # what a test inherits from the runner - signal dispositions, blocked signals, open descriptors - is the same for every
     # test, wherever it stands and whatever ran (or died) before it
     for g in groups:
